@@ -18,7 +18,7 @@ it is deliberately organised differently from the model (ancestor walk instead o
 counts instead of `enumi…enumiv`, a table of print-parents instead of format strings).
 -/
 namespace PlasVerif.Spec.NumberingRules
-open PlasVerif.Model.Numbering
+open PlasVerif.Model.Counters PlasVerif.Model.Numbering
 
 /-- the declarations `(counter, within)` -/
 abbrev Forest := List (String × Option String)
@@ -66,6 +66,148 @@ def romanLower (n : Nat) : String :=
 def alphUpper (n : Nat) : String := String.singleton (Char.ofNat (64 + n))
 /-- `\alph` -/
 def alphLower (n : Nat) : String := String.singleton (Char.ofNat (96 + n))
+
+/-! ## lists: the stack discipline of LaTeX's enumerate, and the well-formedness of a class table for it -/
+
+/-- the four list counters of the standard classes, outermost first -/
+def enumNames : List String := ["enumi", "enumii", "enumiii", "enumiv"]
+
+/-- position of a list counter (4 for anything else) -/
+def eidx (x : String) : Nat := enumNames.idxOf x
+
+/-- decidable well-formedness of a reset table for lists: a list counter is reset, if at all, only by a list counter
+    of an outer level (plasTeX declares the chain `enumi ⊃ enumii ⊃ enumiii ⊃ enumiv`, LaTeX declares none - both
+    qualify).  Consequently stepping a list counter never disturbs an outer list, and stepping anything else never
+    disturbs a list. -/
+def enumChainB (F : Forest) : Bool :=
+  F.all fun e => !(enumNames.contains e.1) ||
+    match e.2 with
+    | none => true
+    | some p => enumNames.contains p && decide (eidx p < eidx e.1)
+
+/-- decidable hypothesis "`\theenum… = \arabic{enum…}`" on the `\the…` table -/
+def enumThesB (thes : TheEnv) : Bool :=
+  enumNames.all fun n => thes.lookup ("the" ++ n) == some { pieces := [.ref n none], trimLeft := false }
+
+/-- the four list counters of a stack of open lists (innermost first): the counts of the open lists, outermost
+    first, then zeros -/
+def levels (stk : List Nat) : List Nat := (stk.reverse ++ List.replicate 4 0).take 4
+
+/-- The state is consistent with the stack `stk` of item counts of the open lists (innermost first):
+    `List.depth` is the number of open lists (at most four), the list counter of every open list holds its count,
+    **every list counter at index ≥ depth is 0** (the invariant `List.invoke` maintains), a list counter is reset
+    only by outer list counters (`enumChainB`), `\theenum…` is arabic, and no theorem-like environment
+    runs on a list counter. -/
+def ListInv (st : St) (stk : List Nat) : Prop :=
+  st.depth = (stk.length : Int) ∧ stk.length ≤ 4 ∧
+  enumNames.map (val st.store) = (levels stk).map (fun (n : Nat) => some (n : Int)) ∧
+  enumChainB (skel st.store) = true ∧ enumThesB st.thes = true ∧
+  st.envs.all (fun e => !(enumNames.contains e.2)) = true
+
+instance (st : St) (stk : List Nat) : Decidable (ListInv st stk) := by unfold ListInv; infer_instance
+
+/-- events that do not interfere with list numbering: no explicit manipulation of `enumi…enumiv`, no object or
+    theorem-like environment numbered by a list counter, no `\appendix` unit that is a list counter.
+    (The list events themselves and every other event are safe.) -/
+def listSafe : Ev → Bool
+  | .construct _ c starred _ => starred || !(enumNames.contains c)
+  | .setc n _ | .addc n _ | .stepc n => !(enumNames.contains n)
+  | .newtheorem name shared _ _ => !(enumNames.contains name) && !(enumNames.contains (shared.getD ""))
+  | .appendix c => !(enumNames.contains c)
+  | _ => true
+
+/-- LaTeX's rule for the stack of item counts: `\begin{list}` opens a list with count 0 (at most four deep),
+    `\end{list}` closes it, an unlabelled `\item` adds one to the innermost count, `\item[label]` and every other
+    event leave the stack alone.  `none` = not a well-nested history. -/
+def stackStep (stk : List Nat) : Ev → Option (List Nat)
+  | .beginList => if stk.length < 4 then some (0 :: stk) else none
+  | .endList => match stk with | [] => none | _ :: r => some r
+  | .item _ hasTerm => match stk with | [] => none | k :: r => some ((if hasTerm then k else k + 1) :: r)
+  | _ => some stk
+
+def stackAfter : List Nat → List Ev → Option (List Nat)
+  | stk, [] => some stk
+  | stk, e :: es => match stackStep stk e with | some stk' => stackAfter stk' es | none => none
+
+/-- what a history made of list events only prints, in order: an unlabelled item prints its position among the
+    unlabelled items of its own list (1, 2, 3 …, restarting at 1 in every list, nested or not), a labelled item
+    prints nothing -/
+def itemTrace : List Nat → List Ev → Option (List Out)
+  | _, [] => some []
+  | stk, .beginList :: es => if stk.length < 4 then itemTrace (0 :: stk) es else none
+  | _ :: r, .endList :: es => itemTrace r es
+  | k :: r, .item tag false :: es => (itemTrace ((k + 1) :: r) es).map (⟨tag, some (toString (k + 1))⟩ :: ·)
+  | k :: r, .item tag true :: es => (itemTrace (k :: r) es).map (⟨tag, none⟩ :: ·)
+  | _, _ => none
+
+/-! ## "no intervening reset or set": events that leave a family of counters alone -/
+
+/-- `A` is closed under "is reset by": whatever a counter of `A` is declared within belongs to `A` too.  (For a
+    counter `c`, take `A` = `c` and everything above it in the reset forest: `[c]` for a top-level counter,
+    `["subsection", "section", "chapter", "volume"]` for the subsection counter of book, …) -/
+def closedB (F : Forest) (A : List String) : Bool :=
+  F.all fun e => !(A.contains e.1) || match e.2 with | none => true | some p => A.contains p
+
+/-- the counters an event may step, set, create or redeclare, in the state where it happens (list events are
+    charged with all four list counters) -/
+def targets (st : St) : Ev → List String
+  | .construct _ c starred _ => if starred then [] else [c]
+  | .thm env => match st.envs.lookup env with | none => [] | some c => [c]
+  | .setc n _ | .addc n _ | .stepc n => [n]
+  | .newcounter n _ => [n]
+  | .newtheorem name _ _ _ => [name]
+  | .beginList | .endList | .item _ _ => enumNames
+  | .eqnBegin | .eqRow | .nonumber => ["equation"]
+  | .appendix c => [c]
+
+/-- the event does not touch any counter of `A` -/
+def avoids (A : List String) (st : St) (e : Ev) : Bool := (targets st e).all fun t => !(A.contains t)
+
+/-- every event of the history, in the state where it happens, avoids `A` (executable, decidable) -/
+def historyAvoids (A : List String) : St → List Ev → Bool
+  | _, [] => true
+  | st, e :: es => avoids A st e && match step st e with | .ok st' => historyAvoids A st' es | .error _ => true
+
+/-! ## `\the…` formats: nested substitution -/
+
+/-- the last step of a `\the…` macro: join the pieces, strip leading `0.` groups when `trimLeft` is set -/
+def finish (d : TheDef) (parts : List String) : String :=
+  if d.trimLeft then trimLeftStr (String.join parts) else String.join parts
+
+/-- **Nested substitution**, declaratively: `Subst env s self ps rs` says that the pieces `ps` of the format of the
+    macro `self` denote the strings `rs`, piece by piece -
+    literal text denotes itself; a reference `${n.fmt}` to a counter denotes the representation `fmt` (default
+    arabic) of its value; a reference `${the…}` to another macro denotes *that macro's own* format, substituted
+    recursively and finished with *its own* `trimLeft`.  No fuel, no evaluation order: the least relation closed
+    under these rules. -/
+inductive Subst (env : TheEnv) (s : Store) : Name → List Piece → List String → Prop where
+  | nil {self : Name} : Subst env s self [] []
+  | lit {self : Name} {t : String} {ps : List Piece} {rs : List String} :
+      Subst env s self ps rs → Subst env s self (.lit t :: ps) (t :: rs)
+  | counter {self n : Name} {f : Option String} {r : String} {ps : List Piece} {rs : List String} :
+      isMacroRef self n = false → represent (valD s n) (f.getD "arabic") = .ok r →
+      Subst env s self ps rs → Subst env s self (.ref n f :: ps) (r :: rs)
+  | nested {self n : Name} {f : Option String} {d : TheDef} {parts : List String} {ps : List Piece} {rs : List String} :
+      isMacroRef self n = true → env.lookup n = some d → Subst env s n d.pieces parts →
+      Subst env s self ps rs → Subst env s self (.ref n f :: ps) (finish d parts :: rs)
+
+/-- what `\the…` (the macro `m`) prints -/
+def Denotes (env : TheEnv) (s : Store) (m : Name) (r : String) : Prop :=
+  ∃ d parts, env.lookup m = some d ∧ Subst env s m d.pieces parts ∧ r = finish d parts
+
+/-- decidable acyclicity certificate for a `\the…` table: a rank under which every nested `${the…}` reference goes
+    to a macro of strictly lower rank -/
+def macroRankedB (env : TheEnv) (rank : Name → Nat) : Bool :=
+  env.all fun e => e.2.pieces.all fun p =>
+    match p with
+    | .ref n _ => !(isMacroRef e.1 n) || decide (rank n < rank e.1)
+    | .lit _ => true
+
+/-- a rank for the `\the…` macros of the standard classes: `\thechapter` < `\thesection` < … ; everything else
+    (equation, figure, table, list and user counters, which refer at most to these) above them -/
+def stdRank (m : Name) : Nat :=
+  ["thechapter", "thesection", "thesubsection", "thesubsubsection", "theparagraph", "thesubparagraph",
+   "thesubsubparagraph"].idxOf m
 
 /-! ## LaTeX-side oracle -/
 
